@@ -170,6 +170,7 @@ SHAPES = [
     ("usersub", lambda l0, l1, l2, h, c: USERSUB, 0),
     ("spec", lambda l0, l1, l2, h, c: SPEC, 0),
     ("[user,l]", lambda l0, l1, l2, h, c: [USER, l0], 1),
+    ("(l,user)", lambda l0, l1, l2, h, c: (l0, USER), 1),
     ("bytes", lambda l0, l1, l2, h, c: b"x", 0),
 ]
 QUICK_SHAPES = {"([l],l)", "leaf", "[]", "[l]", "[l,l]", "{h}", "{}", "{h:l}", "()", "(l,)", "(l,l)", "(l,l,l)", "[[l]]", "{'k':[l]}", "class", "user", "usersub", "spec", "bytes"}
@@ -205,7 +206,9 @@ def mkleaf(k, i, s, fi, rich=True):
 
 
 def make_harness(label, Tref, nbounds=0, thorough=False):
-    shapes = [sh for sh in SHAPES if (thorough and not nbounds) or (sh[0] in BOUNDED_SHAPES if nbounds else sh[0] in QUICK_SHAPES) or (thorough and nbounds and sh[0] in QUICK_SHAPES)]
+    # (two symbolic bounds in [-2,2] over ALL quick shapes did not exhaust within 15 minutes: thorough keeps the wider bound
+    # range and the bounded-annotation shapes there)
+    shapes = [sh for sh in SHAPES if (thorough and not nbounds) or (sh[0] in BOUNDED_SHAPES if nbounds else sh[0] in QUICK_SHAPES) or (thorough and nbounds == 1 and sh[0] in QUICK_SHAPES)]
     blo, bhi = (-2, 2) if (nbounds == 1 or thorough) else (-1, 1)
     rich0 = lambda nleaves: "full" if (nleaves == 1 or thorough) else True
 
